@@ -21,7 +21,8 @@ META = {
                    'included); (b) tap quantisation - the real-arithmetic transform with taps rounded to float32 exactly as torch.tensor(..., dtype=float32) does, minus the float64 '
                    'one, must stay within 64*eps32*gain for every input in [-1,1]^n (z3, linear residual); (c) strided inputs - runs on sliced / transposed / stepped symbolic views '
                    'must equal runs on their contiguous copies. NOT decided: floating-point rounding of the arithmetic inside ATen/oneDNN kernels.',
-    'bounds': {'quick': {'transforms': KINDS, 'configs per transform': 2, 'precision combinations': 8, 'views': ['x[..., ::2]', 'transposed', 'channel slice of a wider tensor', 'batch-offset slice', 'channels_last / NHWC-permuted storage']},
+    'bounds': {'added_families': ['stride-0 expanded channel view', 'ScatLayer view checks (expand, chlast, transposed, chanslice)'],
+               'quick': {'transforms': KINDS, 'configs per transform': 2, 'precision combinations': 8, 'views': ['x[..., ::2]', 'transposed', 'channel slice of a wider tensor', 'batch-offset slice', 'channels_last / NHWC-permuted storage']},
                'thorough': {'configs per transform': 5}},
     'outside': 'rounding/accumulation order inside kernels (a cancellation-prone reformulation is invisible here); half/bfloat16 kernels; CUDA',
     'assumptions': ['real-arithmetic semantics with exact float32 quantisation of constants', 'NumPy strides stand in for torch strides (.view raises on the same layouts)'],
